@@ -859,6 +859,9 @@ class ClientSession:
                             headers.popall(hdrs.AUTHORIZATION, None)
                             headers.popall(hdrs.COOKIE, None)
                             headers.popall(hdrs.PROXY_AUTHORIZATION, None)
+                            # a Host header chosen for the original origin
+                            # does not apply to another one
+                            headers.popall(hdrs.HOST, None)
 
                         url = parsed_redirect_url
                         params = {}
